@@ -58,11 +58,11 @@ def build(ctx):
 # ---- scenarios ---------------------------------------------------------------------------------------
 class Scn:
     """q,min,max,lazy,tick,sp + client scripts (lists of op tokens)"""
-    def __init__(self, scripts, q=2, mn=0, mx=3, lazy=0, tick=0, sp=0):
-        self.scripts, self.q, self.mn, self.mx, self.lazy, self.tick, self.sp = scripts, q, mn, mx, lazy, tick, sp
+    def __init__(self, scripts, q=2, mn=0, mx=3, lazy=0, tick=0, sp=0, ncpu=4):
+        self.scripts, self.q, self.mn, self.mx, self.lazy, self.tick, self.sp, self.ncpu = scripts, q, mn, mx, lazy, tick, sp, ncpu
 
     def cfg(self):
-        return f"q={self.q} min={self.mn} max={self.mx} lazy={self.lazy} tick={self.tick} sp={self.sp}"
+        return f"q={self.q} min={self.mn} max={self.mx} lazy={self.lazy} tick={self.tick} sp={self.sp} ncpu={self.ncpu}"
 
     def scripts_txt(self):
         return " | ".join(" ".join(s) for s in self.scripts)
@@ -86,7 +86,7 @@ def parse_request(line):
     kv = dict(t.split("=", 1) for t in head.split()[1:] if "=" in t)
     scripts = [s.split() for s in rest.split("|")]
     s = Scn(scripts, int(kv.get("q", 2)), int(kv.get("min", 0)), int(kv.get("max", 3)), int(kv.get("lazy", 0)),
-            int(kv.get("tick", 0)), int(kv.get("sp", 0)))
+            int(kv.get("tick", 0)), int(kv.get("sp", 0)), int(kv.get("ncpu", 4)))
     pre = [] if kv.get("pre", "-") == "-" else [int(x) for x in kv["pre"].split(",")]
     devs = [] if kv.get("dev", "-") == "-" else [tuple(int(y) for y in x.split(":")) for x in kv["dev"].split(",")]
     return s, kv.get("pol", "np") + ("s" if kv.get("split", "0") == "1" else ""), int(kv.get("seed", 1)), int(kv.get("bound", 4000)), pre, devs
@@ -449,6 +449,9 @@ def small_scenarios():
     return out
 
 
+NCPU_CHOICES = [4]      # processor counts reported to the lazily created pool
+
+
 def random_scenario(rng):
     nclients = rng.choice([1, 2, 2, 2, 3])
     scripts, nextf, cid = [], 0, 10
@@ -485,7 +488,8 @@ def random_scenario(rng):
                 started.discard(f)      # reading the result of a future that was never started is the caller's error
         scripts.append(sc)
     return Scn(scripts, q=rng.choice([1, 1, 2, 2, 4, 8]), mn=rng.choice([0, 0, 1, 2]), mx=rng.choice([3, 3, 4]),
-               lazy=1 if rng.random() < 0.15 else 0, tick=rng.choice([0, 0, 300, 700, 1100, 2100]), sp=rng.choice([0, 0, 0, 1, 2]))
+               lazy=1 if rng.random() < 0.15 else 0, tick=rng.choice([0, 0, 300, 700, 1100, 2100]), sp=rng.choice([0, 0, 0, 1, 2]),
+               ncpu=rng.choice(NCPU_CHOICES))
 
 
 # ---- exploration -----------------------------------------------------------------------------------------
@@ -638,6 +642,8 @@ ASSUMPTIONS = [
     "scheduling points of the implementation run are the atomic operations and POSIX calls (plain volatile reads happen together with the preceding scheduling point); the Lean theorems quantify over the finer interleaving of every single shared access",
     "simulated POSIX semantics of harness/future/sched.cpp = the model's: non-recursive mutex ownership, condition variable wait set with broadcast waking all current waiters and budgeted spurious wake-ups, thread create/join/exit, virtual monotone clock",
     "each Future object is used by one client thread (the class is not thread-safe for concurrent clients of one object); started functions terminate and do not wait on other futures",
+    "thread creation succeeds (the failing Thread::start branch of the spawn path, which leaves _threadCount incremented without a worker, is not modelled; with it the shutdown side of the liveness theorems would be false); allocation succeeds",
+    "Call.hpp is abstracted: a call record is two integer arguments and a fixed body a*100+b (argument passing / return value are true by construction in the model; the Args templates are exercised by the correspondence run only)",
     "liveness under weak fairness is not decided by schedules of bounded length: the scheduler verdict is deadlock (no enabled thread) or step bound; usize ticket wrap-around at 2^64 is outside the model",
 ]
 
